@@ -674,5 +674,5 @@ func censusMain(outDir string, verbose bool) int {
 	}
 	fmt.Printf("census: %d map ranges (Comm %d, Sorted %d, Sens %d); Gen_MapRanges.v %s\n", len(sites), n["Comm"], n["SortedAfter"], n["Sens"],
 		map[bool]string{true: "rewritten", false: "unchanged"}[changed])
-	return 0
+	return pkgStateMain(outDir, verbose) // Gen_PkgState.v (pkgstate.go)
 }
